@@ -21,7 +21,7 @@ pub fn def() -> PropDef {
     PropDef {
         id: "C05",
         level: "exploration",
-        rule: "every replica state reachable by offering a subset of a two-author universe over keys {'',a,a\\xff,a\\xff\\xff,ab,b,b\\x00,\\xff,\\xff\\xff} (children offered before parents so that prefix deletion leaves stale by-key index rows) x the full product query kind {flat author-key, flat key-author, latest-per-key} x author filter {any,A1,A2,unknown} x key filter {any, exact k, prefix p} x direction x include-empty x offset {0,1,2} x limit {none,0,1,2}, plus get_exact for every (author,key,include_empty); the oracle is a list comprehension over the reference dump; non-trivial = the reference answer before offset/limit is non-empty and the query has a filter, a non-default order or a window",
+        rule: "every replica state reachable by offering a subset of a two-author universe over keys {'',a,a\\xff,a\\xff\\xff,ab,b,b\\x00,\\xff,\\xff\\xff} (children offered before parents so that prefix deletion leaves stale by-key index rows) x the full product query kind {flat author-key, flat key-author, latest-per-key} x author filter {any,A1,A2,unknown} x key filter {any, exact k, prefix p} x direction x include-empty x offset {0,1,2} x limit {none,0,1,2}, plus get_exact for every (author,key,include_empty); a further state holds an author whose id ends in 0xFF next to raw entries of byte-neighbouring author ids, queried with the whole product for author filter {any, that author}; the oracle is a list comprehension over the reference dump; non-trivial = the reference answer before offset/limit is non-empty and the query has a filter, a non-default order or a window",
         assumptions: &[
             "latest-per-key follows the statement and the API documentation: key filter before grouping, greatest timestamp among all authors, author filter after grouping; among several entries tied for the greatest timestamp any is accepted",
             "states hold at most 4 offered entries",
@@ -416,6 +416,77 @@ fn check_state(
     (n, nontrivial)
 }
 
+/// Family N: the author filter next to author ids that are byte-order neighbours. The store
+/// holds entries of an author whose id ends in 0xFF and raw entries (hook `raw_entry_put`) of
+/// author ids just below it, at the exact end of its key space, and a little beyond; every
+/// query of the product with author filter {any, that author} must still equal the reference.
+fn check_neighbour_authors(queries: Option<Vec<Q>>, report: &mut Report, ordinal: u64) -> (u64, u64) {
+    use crate::universe::EDGE_AUTHOR;
+    let ns = ns_id(0);
+    let mut sut = Sut::memory_with(&[0]);
+    crate::props::common::set_clock(crate::universe::NOW);
+    let own = [
+        Spec::new(0, EDGE_AUTHOR, b"a", 1, Val::X),
+        Spec::new(0, EDGE_AUTHOR, b"\xff", 1, Val::Y),
+        Spec::new(0, EDGE_AUTHOR, b"\xff\xff", 2, Val::X),
+        Spec::new(0, EDGE_AUTHOR, b"b", 2, Val::Del),
+    ];
+    for s in &own {
+        let _ = sut.remote(ns, s.signed());
+    }
+    let raw = super::c02::neighbour_entries();
+    for e in &raw {
+        iroh_docs::verif::raw_entry_put(&mut sut.store, ns, e.clone()).expect("raw put");
+    }
+    let dump = sut.dump(ns);
+    if dump.len() != own.len() + raw.len() {
+        report.machinery_error(format!("C05 family N: {} entries in place, expected {}", dump.len(), own.len() + raw.len()));
+        return (0, 0);
+    }
+    let queries = queries.unwrap_or_else(|| {
+        all_queries()
+            .into_iter()
+            .filter(|q| matches!(q.af, AF::Any | AF::A(0)))
+            .map(|mut q| {
+                if q.af == AF::A(0) {
+                    q.af = AF::A(EDGE_AUTHOR);
+                }
+                q
+            })
+            .collect()
+    });
+    let mut nontrivial = 0;
+    for q in &queries {
+        let (accept, nonempty) = reference(&dump, q);
+        if nonempty && q.af != AF::Any {
+            nontrivial += 1;
+        }
+        let case = json!({"family": "neighbour_authors", "query": q});
+        let mut w = witness(q, &dump);
+        w["neighbour_authors"] = json!(true);
+        match run_query(&mut sut, q) {
+            Err(e) => report.violation("query_returns_ok", w, case, format!("{q:?}: {e:#}"), ordinal),
+            Ok(got) => {
+                if !accept.contains(&got) {
+                    report.violation(
+                        "query_result_equals_reference",
+                        w,
+                        case,
+                        format!(
+                            "{q:?} with neighbouring author ids present: impl returns {} entries ({} of other authors than the filter allows), reference {}",
+                            got.len(),
+                            got.iter().filter(|e| !q.author_matches(&e.author())).count(),
+                            accept[0].len()
+                        ),
+                        ordinal,
+                    );
+                }
+            }
+        }
+    }
+    (queries.len() as u64, nontrivial)
+}
+
 fn states(tier: Tier) -> Vec<State> {
     let mut v = states_from_subsets(&universe14(), if tier == Tier::Quick { 3 } else { 4 });
     if tier == Tier::Thorough {
@@ -463,6 +534,18 @@ fn run(ctx: &Ctx, report: &mut Report) {
     let sts = states_with_stale(ctx.tier);
     report.fact("states_total", json!(sts.len()));
     report.fact("queries_per_state", json!(queries.len()));
+    if ctx.mine(0) {
+        let mut local = Report::default();
+        match catch(|| check_neighbour_authors(None, &mut local, 0)) {
+            Err(p) => report.violation("no_panic", json!({"neighbour_authors": true}), json!({"family": "neighbour_authors", "query": null}), format!("panic: {p}"), 0),
+            Ok((n, nt)) => {
+                report.evaluations += n;
+                report.nontrivial += nt;
+                report.count("neighbour_author_queries", n);
+            }
+        }
+        report.merge(local);
+    }
     for (i, st) in sts.iter().enumerate() {
         let ordinal = i as u64 + 1;
         if !ctx.mine(ordinal) {
@@ -491,6 +574,23 @@ fn run(ctx: &Ctx, report: &mut Report) {
 }
 
 fn replay(case: &Value) -> anyhow::Result<(bool, String)> {
+    if case["family"] == "neighbour_authors" {
+        let queries: Option<Vec<Q>> = match case.get("query") {
+            Some(Value::Null) | None => None,
+            Some(q) => Some(vec![serde_json::from_value(q.clone())?]),
+        };
+        let mut local = Report::default();
+        return match catch(|| check_neighbour_authors(queries, &mut local, 0)) {
+            Err(p) => Ok((true, format!("panic: {p}"))),
+            Ok(_) => {
+                let mut out = "family N (neighbouring author ids)\n".to_string();
+                for v in &local.violations {
+                    out.push_str(&format!("FAILED {}: {}\n", v.oracle, v.detail));
+                }
+                Ok((!local.violations.is_empty(), out))
+            }
+        };
+    }
     let offered: Vec<Spec> = serde_json::from_value(case["offered"].clone())?;
     let st = state_of(offered);
     let queries: Vec<Q> = match case.get("query") {
